@@ -35,7 +35,8 @@ ASSUMPTIONS = [
     "chunk times are classified at millisecond resolution (the code compares nanoseconds with 500 ms / 2 s)",
     "the clock is steered through the package's own injectable timeNowFunc (pipeline); protocol 1 reads time.Now itself and is only steered by really holding acknowledgements back",
     "pauses are applied to the sending client only and are shorter than the read time-out, so that every turn of the ack goroutine reads exactly one acknowledgement",
-    "exhaustive model: channel capacities 1..2 (5 in one thorough configuration), 1..3 full chunks per file, 1..2 files; deeper size histories are covered by the recorded real runs only",
+    "exhaustive model: channel capacities 1..3 (the real 5 only in the trace module), 1..3 full chunks per file, 1..2 files; deeper size histories are covered by the recorded real runs only",
+    "trace validation accepts a recorded run as soon as one interleaving of the unobservable steps (encoder, channel operations, the moment an acknowledgement is handled) explains it; the invariants are evaluated on the states visited on the way",
     "protocols 2, 3 and 4 are the same machine here (pause needs >= 3); the model explores 1 and 4 (2 in one configuration)",
     "TLC fingerprint collisions negligible",
 ]
@@ -49,7 +50,7 @@ MUTANTS = {"BufSize_mut_noMaxTest.cfg": {"ShrinkOnlyWhenSlow", "DoubleOnlyWhenAl
 # TLC names an action after the innermost definition it can attribute the step to (the model's M-wrappers
 # that only add a bound keep their own name, those that quantify are reported under the wrapped action)
 ACTIONS = ["BeginFile", "EncFull", "EncDeliver", "EncWait", "EncRenew", "EndOfData", "EncTail", "EncFlag",
-           "SndTake", "SendChunk", "SndLoadPiece", "SendPiece", "SndAckPush", "AckTake", "AckFast", "AckSlow", "AckMiddle",
+           "SndRecv", "SndTake", "SendChunk", "SndLoadPiece", "SendPiece", "SndAckPush", "AckTake", "AckFast", "AckSlow", "AckMiddle",
            "AckIgnored", "PauseSeen", "Pause", "P1Send", "P1AckFast", "P1AckReset", "P1AckKeep", "P1Empty", "FileDone", "Finish"]
 
 
@@ -62,7 +63,7 @@ def _design(quick):
     def one(job):
         cfgname, kind = job
         r = vlib.tlc("BufSize", cfgname, workers=3 if quick else 8, timeout=900 if quick else 3000,
-                     heap="3g" if quick else "8g", coverage=(kind == "prop"))
+                     heap="3g" if quick else "8g", coverage=(kind == "prop" and not quick))
         return cfgname, kind, r
     with ThreadPoolExecutor(max_workers=len(jobs)) as ex:
         return list(ex.map(one, jobs))
@@ -81,7 +82,7 @@ def _judge_design(results, cov):
             cov["transitions"] += r["states"]
             cov["exhaustive_configs"][cfgname] = {"states": r["distinct"], "transitions": r["states"], "depth": r.get("depth"), "wall_s": r["wall_s"],
                                                   "constants": _constants(cfgname)}
-            for a, (d, g) in vlib.action_counts(r["out"]).items():
+            for a, g in _action_counts(r["out"]).items():
                 fired[a] = fired.get(a, 0) + g
         elif kind == "mut":
             ok = r["violated"] in MUTANTS[cfgname]
@@ -90,11 +91,25 @@ def _judge_design(results, cov):
                 raise vlib.Infra("design-level mutant %s is not caught by the invariants (violated=%s)" % (cfgname, r["violated"]))
         else:
             cov["strict_variant_on_design"] = {"cfg": cfgname, "violated": r["violated"]}
-    cov["action_coverage"] = {a: fired.get(a, 0) + fired.get("M" + a, 0) for a in ACTIONS}
-    dead = [a for a in ACTIONS if cov["action_coverage"][a] == 0]
-    if dead:
-        raise vlib.Infra("actions that never fire in the exhaustive configurations: %s" % dead)
+    if fired:      # -coverage is switched on in the thorough tier (it costs half of TLC's time)
+        cov["action_coverage"] = {a: fired.get(a, 0) + fired.get("M" + a, 0) for a in ACTIONS}
+        dead = [a for a in ACTIONS if cov["action_coverage"][a] == 0]
+        if dead:
+            raise vlib.Infra("actions that never fire in the exhaustive configurations: %s" % dead)
+    else:
+        cov["action_coverage"] = "measured in the thorough tier (-coverage 1); the quick tier reports what the recorded real runs exercised (real_runs)"
     cov["exhaustive"] = True
+
+
+def _action_counts(out):
+    """Per-action generated-state counts of a -coverage 1 run (TLC adds a position suffix to the name of an
+    action that is one disjunct of a definition: tolerate it)."""
+    res = {}
+    for line in out.splitlines():
+        m = re.match(r"^<(\w+) line [^>]*>: (\d+):(\d+)$", line.strip())
+        if m:
+            res[m.group(1)] = res.get(m.group(1), 0) + int(m.group(3))
+    return res
 
 
 def _constants(cfgname):
@@ -156,7 +171,7 @@ def _run_at(ev, i):
     return lo, hi
 
 
-def _judge(files, v, details, cfg="BufSizeTrace.cfg", timeout=1800, max_rounds=8, report=True):
+def _judge(files, v, details, cfg="BufSizeTrace.cfg", timeout=1800, max_rounds=4, report=True):
     """Validate; report the offending run of every rejected file, cut it out, validate the rest."""
     bad, states = [], 0
     todo = list(files)
@@ -276,80 +291,7 @@ def _real_coverage(files):
     return c, above
 
 
-def run(tier, v):
-    quick = tier == "quick"
-    cov = {"samples": [], "observations": []}
-    t0 = time.time()
-    parts = {}
-
-    def mark(name, since):
-        parts[name] = round(time.time() - since, 1)
-        vlib.log("x01 %s: %.1fs" % (name, parts[name]))
-        return time.time()
-    pool = ThreadPoolExecutor(max_workers=2)
-    design = pool.submit(_design, quick)
-    gen = pool.submit(lambda: vlib.tlc("BufSizeGen", "BufSizeGen_quick.cfg" if quick else "BufSizeGen_thorough.cfg",
-                                       workers=1, timeout=900 if quick else 3000, heap="3g"))
-    # 2. impl -> spec
-    t = time.time()
-    h = vlib.build_harness(["e2e", "x01"])
-    t = mark("build", t)
-    out = os.path.join(vlib.scratch(), "x01tv")
-    s = vlib.run_driver(h, "x01_tv", out, {"thorough": not quick, "shards": 16}, timeout=600 if quick else 3000)
-    t = mark("driver", t)
-    files, details, nruns = _gather(out, 6 if quick else 16)
-    amb = [d["case"]["label"] + ": " + d["ambiguous"] for d in details.values() if d.get("ambiguous")]
-    if amb:
-        raise vlib.Infra("the recorder could not attribute an event (harness, not a verdict): %s" % amb[:5])
-    if nruns < (40 if quick else 300):
-        raise vlib.Infra("only %d complete recorded runs" % nruns)
-    bad, tvstates = _judge(files, v, details, timeout=600 if quick else 3000)
-    t = mark("trace_validation", t)
-    cov["traces_validated_against_impl"] = nruns
-    cov["trace_events"] = s.get("events")
-    cov["trace_runs_rejected"] = len(bad)
-    cov["tv_states"] = tvstates
-    rc, above = _real_coverage(files)
-    cov["real_runs"] = rc
-    need = ["pieces", "doublings", "doubling_capped_at_max", "shrinks", "shrinks_to_floor", "acks_ignored_after_pause",
-            "probe_ended_by_ack", "probe_ended_by_end_of_data", "pauses", "p1_doublings", "p1_reached_max", "p1_resets", "real_clock_slow_acks"]
-    missing = [k for k in need if rc[k] == 0]
-    if missing and not bad:
-        raise vlib.Infra("the steered runs did not reach: %s (steering failed, no verdict)" % missing)
-    ev0 = vlib.read_ndjson(files[0])
-    lo, hi = _run_at(ev0, 0)
-    cov["samples"].append({"recorded_run": ev0[lo:min(hi, lo + 14)]})
-    # observation: the strict reading of -B
-    if above:
-        worst = sorted(above.items(), key=lambda kv: kv[1]["bufsize"])[:6]
-        obs = {"key": "chunk-above-negotiated-bufsize",
-               "text": "a new transfer starts with bufferSize 10240 (transfer.go newTransfer) and the negotiated bufsize never clamps it: "
-                       "with -B below 10K the sender writes DATA blocks larger than the negotiated 'max buffer chunk size' until a slow "
-                       "chunk shrinks it (the receiver's bound tolerates this since fix 99f58f5)",
-               "real_runs": {k: a for k, a in worst}, "runs_affected": len(above)}
-        cov["observations"].append(obs)
-    # the same judged by the spec: a recorded -B 1K run violates the strict invariant, and only that one
-    strict_run = None
-    for f in files:
-        ev = vlib.read_ndjson(f)
-        for i, e in enumerate(ev):
-            if e["e"] == "reset" and e["max"] < 10240 and e["proto"] >= 2:
-                lo, hi = _run_at(ev, i)
-                if hi - lo < 400 and (strict_run is None or hi - lo < len(strict_run)):
-                    strict_run = ev[lo:hi]
-    if strict_run:
-        p = os.path.join(out, "strict-one.ndjson")
-        with open(p, "w") as fh:
-            for e in strict_run:
-                fh.write(json.dumps(e) + "\n")
-        r = vlib.validate_trace("BufSizeTrace", "BufSizeTrace_strict.cfg", p, timeout=600, heap="1500m")
-        if cov["observations"]:
-            cov["observations"][0]["strict_invariant_on_a_real_run"] = {"label": strict_run[0]["label"], "bufsize": strict_run[0]["max"],
-                                                                         "tlc_violated": r["violated"]}
-    t = mark("strict_observation", t)
-    # 4. binding self-tests on one small recorded run that doubles and shrinks
-    st_file = _selftest_file(files, out)
-
+def _corruptions(quick):
     def corrupt_size(ev):
         ev = [dict(e) for e in ev]
         k = [i for i, e in enumerate(ev) if e["e"] == "ack" and e["ad"]]
@@ -376,11 +318,91 @@ def run(tier, v):
     tests = {"size_plus_one": corrupt_size, "ack_dropped": drop_ack}
     if not quick:
         tests.update({"block_plus_one": corrupt_block, "fast_reported_as_slow": corrupt_class})
-    with ThreadPoolExecutor(max_workers=4) as ex:
-        rs = list(ex.map(lambda kv: (kv[0], vlib.selftest_reject("BufSizeTrace", "BufSizeTrace.cfg", st_file, kv[1], timeout=600, heap="1500m")), tests.items()))
-    cov["selftests_rejected"] = dict(rs)
-    if not all(x for _, x in rs):
-        raise vlib.Infra("binding self-test failed: a corrupted trace was accepted: %s" % dict(rs))
+    return tests
+
+
+def run(tier, v):
+    quick = tier == "quick"
+    cov = {"samples": [], "observations": []}
+    t0 = time.time()
+    parts = {}
+
+    def mark(name, since):
+        parts[name] = round(time.time() - since, 1)
+        vlib.log("x01 %s: %.1fs" % (name, parts[name]))
+        return time.time()
+    pool = ThreadPoolExecutor(max_workers=8)
+    design = pool.submit(_design, quick)
+    gen = pool.submit(lambda: vlib.tlc("BufSizeGen", "BufSizeGen_quick.cfg" if quick else "BufSizeGen_thorough.cfg",
+                                       workers=1, timeout=900 if quick else 3000, heap="3g"))
+    # 2. impl -> spec: record
+    t = time.time()
+    h = vlib.build_harness(["e2e", "x01"])
+    t = mark("build", t)
+    out = os.path.join(vlib.scratch(), "x01tv")
+    s = vlib.run_driver(h, "x01_tv", out, {"thorough": not quick, "shards": 16}, timeout=600 if quick else 3000)
+    t = mark("driver", t)
+    files, details, nruns = _gather(out, 4 if quick else 16)
+    amb = [d["case"]["label"] + ": " + d["ambiguous"] for d in details.values() if d.get("ambiguous")]
+    if amb:
+        raise vlib.Infra("the recorder could not attribute an event (harness, not a verdict): %s" % amb[:5])
+    if nruns < (40 if quick else 300):
+        raise vlib.Infra("only %d complete recorded runs" % nruns)
+    # binding self-tests and the strict-reading observation run beside the validation
+    st_file = _selftest_file(files, out)
+    selftests = [(name, pool.submit(vlib.selftest_reject, "BufSizeTrace", "BufSizeTrace.cfg", st_file, fn, timeout=600, heap="1500m"))
+                 for name, fn in _corruptions(quick).items()]
+    strict_run, strict_job = None, None
+    if not quick:
+        for f in files:
+            ev = vlib.read_ndjson(f)
+            for i, e in enumerate(ev):
+                if e["e"] == "reset" and e["max"] < 10240 and e["proto"] >= 2:
+                    lo, hi = _run_at(ev, i)
+                    if hi - lo < 400 and (strict_run is None or hi - lo < len(strict_run)):
+                        strict_run = ev[lo:hi]
+        if strict_run:
+            p = os.path.join(out, "strict-one.ndjson")
+            with open(p, "w") as fh:
+                for e in strict_run:
+                    fh.write(json.dumps(e) + "\n")
+            strict_job = pool.submit(vlib.validate_trace, "BufSizeTrace", "BufSizeTrace_strict.cfg", p, timeout=600, heap="1500m")
+    # validate
+    bad, tvstates = _judge(files, v, details, timeout=600 if quick else 3000)
+    t = mark("trace_validation", t)
+    cov["traces_validated_against_impl"] = nruns
+    cov["trace_events"] = s.get("events")
+    cov["trace_runs_rejected"] = len(bad)
+    cov["tv_states"] = tvstates
+    rc, above = _real_coverage(files)
+    cov["real_runs"] = rc
+    # (what depends on the real clock being fast - protocol 1 reaching its maximum - is reported, not required)
+    need = ["pieces", "doublings", "doubling_capped_at_max", "shrinks", "shrinks_to_floor", "acks_ignored_after_pause",
+            "probe_ended_by_ack", "probe_ended_by_end_of_data", "pauses", "p1_doublings", "p1_resets", "real_clock_slow_acks"]
+    missing = [k for k in need if rc[k] == 0]
+    if missing and not bad:
+        raise vlib.Infra("the steered runs did not reach: %s (steering failed, no verdict)" % missing)
+    ev0 = vlib.read_ndjson(files[0])
+    lo, hi = _run_at(ev0, 0)
+    cov["samples"].append({"recorded_run": [{k: (x if k != "bounds" else x[:4] + ["..."]) for k, x in e.items()} for e in ev0[lo:min(hi, lo + 14)]]})
+    # observation (not a violation): the strict reading of -B
+    if above:
+        worst = sorted(above.items(), key=lambda kv: (kv[1]["bufsize"], kv[0]))[:6]
+        obs = {"key": "chunk-above-negotiated-bufsize",
+               "text": "a new transfer starts with bufferSize 10240 (transfer.go newTransfer) and the negotiated bufsize never clamps it: "
+                       "with -B below 10K the sender writes DATA blocks larger than the negotiated 'max buffer chunk size' until a slow "
+                       "chunk shrinks it (the receiver's bound tolerates this since fix 99f58f5); SizeWithinNegotiated (size <= MaxBufSize) "
+                       "is therefore false on real code, SizeInRange (size <= max(MaxBufSize, 10240)) holds",
+               "real_runs": {k: a for k, a in worst}, "runs_affected": len(above)}
+        if strict_job:
+            r = strict_job.result()
+            obs["strict_invariant_on_a_real_run"] = {"label": strict_run[0]["label"], "bufsize": strict_run[0]["max"], "tlc_violated": r["violated"]}
+        cov["observations"].append(obs)
+    # 4. binding self-tests
+    rs = {name: job.result() for name, job in selftests}
+    cov["selftests_rejected"] = rs
+    if not all(rs.values()):
+        raise vlib.Infra("binding self-test failed: a corrupted trace was accepted: %s" % rs)
     t = mark("selftests", t)
     # 3. spec -> impl
     g = gen.result()
@@ -415,6 +437,7 @@ def run(tier, v):
     t = mark("wait_design_tlc", t)
     parts["total"] = round(time.time() - t0, 1)
     cov["wall_parts_s"] = parts
+    pool.shutdown(wait=False)
     return cov
 
 
